@@ -22,6 +22,7 @@ import (
 	"reflect"
 	"regexp"
 	"sort"
+	"strings"
 	"time"
 	"unicode"
 	"unicode/utf8"
@@ -478,14 +479,14 @@ func normalizeMap(opts *options, from reflect.Value) (*Config, Error) {
 func normalizeMapInto(cfg *Config, opts *options, from reflect.Value) Error {
 	k := from.Type().Key().Kind()
 	if k != reflect.String && k != reflect.Interface {
-		return raiseKeyInvalidTypeMerge(cfg, from.Type())
+		return raiseKeyInvalidTypeMerge(loadCfg(opts, cfg), from.Type())
 	}
 
 	for _, k := range from.MapKeys() {
 		verifKeyOrderRV("normalizeMapInto", k)
 		k = chaseValueInterfaces(k)
 		if k.Kind() != reflect.String {
-			return raiseKeyInvalidTypeMerge(cfg, from.Type())
+			return raiseKeyInvalidTypeMerge(loadCfg(opts, cfg), from.Type())
 		}
 
 		err := normalizeSetField(cfg, opts, noTagOpts, k.String(), from.MapIndex(k))
@@ -619,12 +620,35 @@ func normalizeSetField(
 	p := parsePathWithOpts(name, opts)
 	levels := len(p.fields) - 1
 	opts.normalizeDepth += levels
+	depth := len(opts.loadPath)
+	for _, f := range p.fields {
+		opts.loadPath = append(opts.loadPath, f.String())
+	}
 	val, err := normalizeValue(opts, tagOpts, context{}, v)
+	opts.loadPath = opts.loadPath[:depth]
 	opts.normalizeDepth -= levels
 	if err != nil {
 		return err
 	}
 	return normalizeSetValue(cfg, opts, p, name, val)
+}
+
+// loadCtx is the context errors about the value being normalized report: its
+// place in the input, if known.
+func loadCtx(opts *options, ctx context) context {
+	if len(opts.loadPath) == 0 {
+		return ctx
+	}
+	return context{field: strings.Join(opts.loadPath, ".")}
+}
+
+// loadCfg stands in for cfg, an object of the input being normalized, in
+// errors about its settings: it knows the place of the object in the input.
+func loadCfg(opts *options, cfg *Config) *Config {
+	if len(opts.loadPath) == 0 {
+		return cfg
+	}
+	return &Config{ctx: loadCtx(opts, cfg.ctx), metadata: cfg.metadata}
 }
 
 func normalizeSetValue(cfg *Config, opts *options, p cfgPath, name string, val value) Error {
@@ -641,7 +665,7 @@ func normalizeSetValue(cfg *Config, opts *options, p cfgPath, name string, val v
 	if err != nil {
 		if err.Reason() == ErrExpectedObject {
 			// a parent of name has already been defined as a primitive value
-			return raiseDuplicateKey(cfg, name)
+			return raiseDuplicateKey(loadCfg(opts, cfg), name)
 		}
 		if err.Reason() != ErrMissing {
 			return err
@@ -654,14 +678,14 @@ func normalizeSetValue(cfg *Config, opts *options, p cfgPath, name string, val v
 		if indexesPrimitive(cfg, opts, p) {
 			// like any other value: name spells a list, the other spelling
 			// found first has defined a primitive value
-			return raiseDuplicateKey(cfg, name)
+			return raiseDuplicateKey(loadCfg(opts, cfg), name)
 		}
 		return nil
 	case isNil(old):
 		err := p.SetValue(cfg, opts, val)
 		if err != nil && err.Reason() == ErrExpectedObject {
 			// a parent of name has already been defined as a primitive value
-			return raiseDuplicateKey(cfg, name)
+			return raiseDuplicateKey(loadCfg(opts, cfg), name)
 		}
 		return err
 	case isSub(old) && isSub(val):
@@ -675,7 +699,7 @@ func normalizeSetValue(cfg *Config, opts *options, p cfgPath, name string, val v
 		uniteConfigs(cfgOld, cfgVal)
 		return nil
 	default:
-		return raiseDuplicateKey(cfg, name)
+		return raiseDuplicateKey(loadCfg(opts, cfg), name)
 	}
 }
 
@@ -837,7 +861,9 @@ func normalizeArray(
 			parent: val,
 			field:  idx,
 		}
+		opts.loadPath = append(opts.loadPath, idx)
 		tmp, err := normalizeValue(opts, tagOpts, ctx, v.Index(i))
+		opts.loadPath = opts.loadPath[:len(opts.loadPath)-1]
 		if err != nil {
 			return nil, err
 		}
@@ -921,7 +947,7 @@ func normalizeValue(
 				return &cfgNil{cfgPrimitive{ctx, opts.meta}}, nil
 			}
 		}
-		return nil, raiseUnsupportedInputType(ctx, opts.meta, v)
+		return nil, raiseUnsupportedInputType(loadCtx(opts, ctx), opts.meta, v)
 	}
 }
 
@@ -942,7 +968,7 @@ func normalizeString(ctx context, opts *options, str string) (value, Error) {
 
 	varexp, err := parseSplice(str, opts.pathSep, opts.maxIdx, opts.enableNumKeys, opts.escapePath)
 	if err != nil {
-		return nil, raiseParseSplice(ctx, opts.meta, err)
+		return nil, raiseParseSplice(loadCtx(opts, ctx), opts.meta, err)
 	}
 
 	switch p := varexp.(type) {
